@@ -141,15 +141,23 @@ def compile_run(run):
         if fp is not None and open(stamp).read().strip() == fp:
             return out, "cached"
     t0 = time.time()
-    p = subprocess.run(cmd + ["-MD", "-MF", dep], stdout=subprocess.PIPE, stderr=subprocess.STDOUT, text=True)
+    # compile to private temporaries and rename, so that two checks building the same binary
+    # at the same time (C01/C02/C03 share sources) never see a half-written file
+    tmp = "%s.tmp%d" % (out, os.getpid())
+    tcmd = cmd[:-1] + [tmp]
+    p = subprocess.run(tcmd + ["-MD", "-MF", tmp + ".d"], stdout=subprocess.PIPE, stderr=subprocess.STDOUT, text=True)
     if p.returncode != 0:
-        if os.path.exists(stamp):
-            os.remove(stamp)
+        for f in (stamp, tmp, tmp + ".d"):
+            if os.path.exists(f):
+                os.remove(f)
         return None, p.stdout[-6000:]
+    os.replace(tmp + ".d", dep)
+    os.replace(tmp, out)
     fp = fingerprint()
     if fp:
-        with open(stamp, "w") as f:
+        with open(stamp + ".tmp%d" % os.getpid(), "w") as f:
             f.write(fp)
+        os.replace(stamp + ".tmp%d" % os.getpid(), stamp)
     return out, "compiled in %.1fs" % (time.time() - t0)
 
 
